@@ -40,11 +40,18 @@ W = {
                                 prog([Q, cond(cmp_("<", P("zz", "count"), n(3)))]), ("span_stmt", 0, (1,))),
     "D11a-not-operand": ("D11a-expression-operand-raises", ["C16"], {"C16": "C16"},
                          prog([Q, cond(cmp_("<", ("paren", ("not", P("q", "flag"))), n(3)))]), ("span_stmt", 0, (1,))),
-    "D11a-array-element-in-guard": ("D11a-expression-operand-raises", ["C11", "C16"], {"C11": "C11", "C16": "C16"},
+    "D25-array-element-in-guard": ("D25-array-element-rejected", ["C11"], {"C11": "C11"},
+                                   prog([Q, cond(cmp_("<", P("q", "items", 0, "n"), n(3)))]), ("span_stmt", 0, (1,))),
+    "D25-primitive-array-element": ("D25-array-element-rejected", ["C11"], {"C11": "C11"},
+                                    prog([Q, svc([P("q", "nums", 0)])]), ("span_stmt", 0, (1,))),
+    "D25-array-element-as-limit": ("D25-array-element-rejected", ["C11"], {"C11": "C11"},
+                                   prog([Q, ("count", False, "k", ("path", "q", [("f", "items"), ("il", 0), ("f", "n")]), [svc()])]),
+                                   ("span_stmt", 0, (1,))),
+    "D11a-array-element-in-guard": ("D11a-expression-operand-raises", ["C16"], {"C16": "C16"},
                                     prog([Q, cond(cmp_("<", P("q", "items", 0, "n"), n(3)))]), ("span_stmt", 0, (1,))),
     "D11c-index-on-struct-attribute": ("D11c-attribute-access-raises", ["C10", "C16"], {"C10": "C10", "C16": "C16"},
                                        prog([Q, svc([P("q", "inner", 0)])]), ("span_stmt", 0, (1,))),
-    "D11c-primitive-array-element": ("D11c-attribute-access-raises", ["C11", "C16"], {"C11": "C11", "C16": "C16"},
+    "D11c-primitive-array-element": ("D11c-attribute-access-raises", ["C16"], {"C16": "C16"},
                                      prog([Q, svc([P("q", "nums", 0)])]), ("span_stmt", 0, (1,))),
     "D11d-unknown-key-in-nested-literal": ("D11d-nested-literal-key-raises", ["C10", "C16"], {"C10": "C10", "C16": "C16"},
                                            prog([svc([("lit", "Fq", fq_json(inner=fin_json(zz=n(1))))])]),
@@ -58,9 +65,9 @@ W = {
                                  prog([Q, cond(("str", "abc"))]), ("span_stmt", 0, (1,))),
     "D12b-number-under-and": ("D12b-guard-type-unchecked", ["C10"], {"C10": "C10"},
                               prog([Q, cond(cmp_("And", P("q", "count"), P("q", "flag")))]), ("span_stmt", 0, (1,))),
-    "D20-string-equality": ("D20-string-equality-rejected", ["C11"], {"C11": "C11"},
+    "D24-string-equality": ("D24-string-equality-rejected", ["C11"], {"C11": "C11"},
                             prog([Q, cond(cmp_("==", P("q", "label"), ("str", "a")))]), ("span_stmt", 0, (1,))),
-    "D20-parenthesised-string-operand": ("D20-string-equality-rejected", ["C11"], {"C11": "C11"},
+    "D24-parenthesised-string-operand": ("D24-string-equality-rejected", ["C11"], {"C11": "C11"},
                                          prog([Q, cond(cmp_("<", ("paren", ("str", "a")), ("str", "b")))]),
                                          ("span_stmt", 0, (1,))),
     "D21-array-length-by-name": ("D21-array-length-error-without-line", ["C19"], {"C19": "C19"},
@@ -116,6 +123,9 @@ EXTRA_COQ = {
     "bool_literal_in_arithmetic": prog([Q, cond(cmp_("<", cmp_("+", ("bool", True), n(1)), n(3)))]),
     "number_as_condition": prog([Q, ("while", n(3), [svc()])]),
     "unknown_task": prog([Q, ("cond", ("bool", True), [("count", False, "k", ("int", 2), [svc(), ("call", "nosuch", [], [])])], [])]),
+    # not producible by the grammar (an index directly after the variable): only for Coq
+    "nongrammar_path": prog([Q, ("call", "fcallee", [("path", "q", [("il", 0), ("f", "inner")]), P("q", "count")],
+                                 [("x1", FIN)])], [CALLEE]),
     "good_small": prog([Q, ("call",) + GOOD_CALL,
                         ("count", False, "k", ("path", "q", [("f", "count")]),
                          [("call", "fcallee", [("var", "q"), P("q", "inner", "n")], [("x2", FIN)]),
